@@ -22,8 +22,8 @@ func init() {
 	runner.Register(&runner.Check{
 		ID:    "C12",
 		Level: "exploration",
-		Rule: "program = 2 (quick) or 3 (thorough) rules of one phase whose transformation lists are drawn from {[], [lowercase], [lowercase,trim], [lowercase,trim,removeWhitespace], [trim], [trim,lowercase]} over targets " +
-			"{ARGS_GET, ARGS_GET:a, ARGS_GET|!ARGS_GET:b, &ARGS_GET, ARGS, REQUEST_HEADERS, chain->MATCHED_VAR, chain->MATCHED_VARS, ENV:k rewritten by setenv between rules, RULE:id}; " +
+		Rule: "program = 2 (quick) or 3 (thorough) rules of one phase whose transformation lists are drawn from {[], [lowercase], [lowercase,trim], [lowercase,trim,removeWhitespace], [trim], [trim,lowercase], [urlDecode], [urlDecode,urlDecode], [uppercase,lowercase]} over targets " +
+			"{ARGS_GET, ARGS_GET:a, ARGS_GET|!ARGS_GET:b, &ARGS_GET, ARGS, REQUEST_HEADERS, chain->MATCHED_VAR (raw and t:trimRight starters), chain->MATCHED_VARS, multiMatch rules, ENV:k rewritten by setenv between rules, RULE:id}; " +
 			"request = repeated / case-variant names with values that the transformations change differently; every map order within the bound; each transaction is run twice on the same (pool-recycled) object. " +
 			"Oracle: the same program with rule i's list prefixed by a distinct identity transformation registered through the plugin API (no two rules can then share a cache entry) must give the same fired rules and match data. " +
 			"distinct_nontrivial = distinct (program, request) in which two rules with a common non-empty transformation prefix both selected at least one value",
@@ -45,7 +45,8 @@ type kase struct {
 	Order []int    `json:"order,omitempty"`
 }
 
-var transLists = [][]string{nil, {"lowercase"}, {"lowercase", "trim"}, {"lowercase", "trim", "removeWhitespace"}, {"trim"}, {"trim", "lowercase"}}
+var transLists = [][]string{nil, {"lowercase"}, {"lowercase", "trim"}, {"lowercase", "trim", "removeWhitespace"}, {"trim"}, {"trim", "lowercase"},
+	{"urlDecode"}, {"urlDecode", "urlDecode"}, {"uppercase", "lowercase"}}
 
 var kinds = []ruleT{
 	{Target: "ARGS_GET", Kind: "plain"},
@@ -56,6 +57,8 @@ var kinds = []ruleT{
 	{Target: "REQUEST_HEADERS", Kind: "plain"},
 	{Target: "ARGS_GET", Kind: "mvar"},
 	{Target: "ARGS_GET:a", Kind: "mvars"},
+	{Target: "ARGS_GET", Kind: "mvart"},  // starter with t:trimRight: MATCHED_VAR is a sub-string (same address, other length) of the raw value
+	{Target: "ARGS_GET", Kind: "multi"},  // multiMatch rule: sees the original and every intermediate value
 	{Target: "", Kind: "env"},
 	{Target: "", Kind: "rule"},
 }
@@ -66,6 +69,7 @@ var requests = []scen.Req{
 	{URI: "/p?a=x&a=x&c=%20X%20"},
 	{URI: "/p?c=X%20y&b=x&a=3", Headers: [][2]string{{"X-A", " X"}, {"X-B", "x "}}},
 	{URI: "/p?a=X", Headers: [][2]string{scen.Form()}, Body: "a=%20x&b=X%20"},
+	{URI: "/p?a=%252578&a=%2578%20&b=x%20%20"}, // decoded once by the query parser: "%2578", "%78 ", "x  "
 }
 
 func tlist(tr []string, idPrefix int) string {
@@ -99,6 +103,10 @@ func render(rules []ruleT, ref bool) string {
 			fmt.Fprintf(&sb, "SecRule %s \"@rx ^[x1-9]\" \"id:%d,phase:2,pass,log%s\"\n", r.Target, id, tl)
 		case "mvar":
 			fmt.Fprintf(&sb, "SecRule %s \"@rx .\" \"id:%d,phase:2,pass,log,chain\"\n  SecRule MATCHED_VAR \"@rx ^x\" \"%s\"\n", r.Target, id, strings.TrimPrefix(tl, ","))
+		case "mvart":
+			fmt.Fprintf(&sb, "SecRule %s \"@rx .\" \"id:%d,phase:2,pass,log,t:trimRight,chain\"\n  SecRule MATCHED_VAR \"@rx ^[x%%]\" \"%s\"\n", r.Target, id, strings.TrimPrefix(tl, ","))
+		case "multi":
+			fmt.Fprintf(&sb, "SecRule %s \"@rx ^[xX1-9]\" \"id:%d,phase:2,pass,log,multiMatch%s\"\n", r.Target, id, tl)
 		case "mvars":
 			fmt.Fprintf(&sb, "SecRule %s \"@rx .\" \"id:%d,phase:2,pass,log,chain\"\n  SecRule MATCHED_VARS \"@rx ^x\" \"%s\"\n", r.Target, id, strings.TrimPrefix(tl, ","))
 		case "env":
@@ -115,6 +123,7 @@ func render(rules []ruleT, ref bool) string {
 
 func fix(s string) string {
 	// a chained rule with an empty action list is not valid SecLang: give it a no-op
+	s = strings.ReplaceAll(s, "\"@rx ^[x%]\" \"\"\n", "\"@rx ^[x%]\" \"t:none\"\n")
 	return strings.ReplaceAll(s, "\"@rx ^x\" \"\"\n", "\"@rx ^x\" \"t:none\"\n")
 }
 
@@ -144,12 +153,12 @@ func run(c *runner.Ctx) {
 		tls := transLists
 		if c.Thorough() && len(cur) == 2 {
 			// third rule: a reduced menu keeps the product finite and finishes in minutes
-			ks = []ruleT{kinds[0], kinds[2], kinds[6], kinds[8]}
+			ks = []ruleT{kinds[0], kinds[2], kinds[6], kinds[8], kinds[9]}
 			tls = [][]string{{"lowercase"}, {"lowercase", "trim"}, {"trim"}}
 		}
 		for _, k := range ks {
 			for _, tl := range tls {
-				if (k.Kind == "mvar" || k.Kind == "mvars") && len(tl) == 0 {
+				if (k.Kind == "mvar" || k.Kind == "mvars" || k.Kind == "mvart" || k.Kind == "multi") && len(tl) == 0 {
 					continue
 				}
 				r := k
